@@ -263,6 +263,7 @@ Section Reductions.
     destruct (d_cls (get_ds s t)) eqn:Ec; try discriminate.
     destruct (a_shape (get_arr s (d_arr (get_ds s t)))) as [|n0 [|n1 [|n2 [|n3 [|n4 rest]]]]] eqn:Es;
       try discriminate.
+    match type of H with (if ?c then _ else _) = _ => destruct c; [discriminate|] end.
     inv_bind H. rename x into data.
     destruct (alloc_fresh_spec s [n2; n3] data) as (E1 & D1 & A1 & L1 & N1).
     destruct (alloc_fresh s [n2; n3] data) as [s1 aid]. cbn [fst snd] in *. subst aid.
